@@ -287,6 +287,16 @@ fn extension_mutations(prop: &str, i: u64, rng: &mut Rng, out: &mut Outcome, dir
         let mut raw = base.clone();
         raw.nostr_group_id = rng.bytes::<32>();
         let mut bytes_override: Option<Vec<u8>> = None;
+        // every mutation is applied to a valid encoding of EVERY version class, not only to the one
+        // the library writes (a parser may treat later versions more leniently)
+        if k >= 6 && rng.chance(60) {
+            raw.version = *rng.pick(&[1u16, 2, 3, 7, 255, 256, 4096, 65535]);
+        }
+        let vclass = match raw.version {
+            1 => "v1",
+            2 => "v2",
+            _ => "v3+",
+        };
         let (label, must_refuse): (String, bool) = match k {
             0..=3 => {
                 raw.version = *rng.pick(&[1u16, 1, 2, 3, 7, 255, 256, 4096, 65535]);
@@ -410,6 +420,7 @@ fn extension_mutations(prop: &str, i: u64, rng: &mut Rng, out: &mut Outcome, dir
                 ("no-admins".into(), false)
             }
         };
+        let label = if k >= 6 { format!("{label}@{vclass}") } else { label };
         let bytes = bytes_override.unwrap_or_else(|| raw.encode());
         let Some(rumor) = forge_welcome(&kp, &rng.vec(16), bytes.clone(), sender, rng) else {
             labels.push(format!("{label}: could not forge"));
@@ -426,7 +437,7 @@ fn extension_mutations(prop: &str, i: u64, rng: &mut Rng, out: &mut Outcome, dir
                 out.violation(format!("{prop}|ambiguous-extension-accepted|{label}"), format!("a group-data extension with {label} was accepted ({} bytes)", bytes.len()), json!({"bytes": hex::encode(&bytes)}));
             }
             (Err(e), false) => {
-                if label == "no-admins" {
+                if label.starts_with("no-admins") {
                     out.note("info", format!("extension without admins refused: {}", error_variant(&e)));
                 } else {
                     out.violation(format!("{prop}|valid-extension-refused|{}", label.split('-').take(2).collect::<Vec<_>>().join("-")), format!("{label}: {e}"), json!({"bytes": hex::encode(&bytes)}));
